@@ -1,4 +1,5 @@
 (* C02 - parse() is text-preserving. *)
+From SqlModel.Gen Require LexPins.   (* the scan loop, is_keyword, consume and the class-level state of sqlparse/lexer.py have the pinned shape *)
 From SqlModel.Inst Require PassTabRun.   (* the grouping tables of Group/Passes.v equal the ones regenerated from the source *)
 From SqlModel Require Import Base PyStr Lexer SplitDefs Splitter SplitFacts Node Inv Passes GroupFacts.
 From SqlModel.Gen Require Import SplitTab.
